@@ -28,6 +28,12 @@ NONDET_ALLOWED = {
 }
 
 
+# ordering decisions on addresses that cannot change the result: (function, callee) -> reason (confirmed by reading)
+ADDRESS_ORDER_OK = {
+    ('uscxml::LargeMicroStep::step', 'std::binary_search'): 'membership test "is the completion a direct child": equality is identity, so a wrong order can only produce a false negative; the deep-completion path taken then inserts the child\'s ancestors, which are already in the entry set or still active and are removed from the entry set before ENTER_STATES',
+}
+
+
 def container_key(t):
     m = re.search(r'std::(map|set|multimap|multiset|unordered_map|unordered_set|unordered_multimap|unordered_multiset)<(.*)', t)
     if not m:
@@ -141,7 +147,47 @@ def scan(fb, funcs, rep, control=False):
                     res['ptrorder'].append((f, n, at))
             if n.get('ck') == 'PointerToIntegral':
                 res['ptr2int'].append((f, n))
+            # ordering decisions taken on addresses
+            if n['k'] == 'BinaryOperator' and n.get('op') in ('<', '>', '<=', '>=') and len(n.get('c', [])) == 2:
+                ts = [(strip(x) or {}).get('t', '') for x in n['c']]
+                if all(object_pointer(t) for t in ts):
+                    res['ptrorder'].append((f, n, 'relational comparison of %s' % ts[0]))
+            if c:
+                q = c['q']
+                m = re.match(r'^std::(less|greater|less_equal|greater_equal)<(.*)>::operator\(\)$', q)
+                if m and m.group(2).strip().endswith('*') and object_pointer(m.group(2).strip()):
+                    res['ptrorder'].append((f, n, 'std::%s<%s>' % (m.group(1), m.group(2))))
+                base = q.split('<')[0]
+                if base in STD_ORDER_ALGOS and len(n.get('c', [])) == STD_ORDER_ALGOS[base] + 1:
+                    at = strip(n['c'][1]).get('t', '')
+                    if base not in ('std::sort', 'std::stable_sort') and pointer_range(at):
+                        res['ptrorder'].append((f, n, at))
+            if n['k'] in ('CXXTemporaryObjectExpr', 'CXXConstructExpr', 'CXXFunctionalCastExpr'):
+                m = re.match(r'^(?:struct )?std::(less|greater|less_equal|greater_equal)<(.*)>$', n.get('t', '') or '')
+                if m and m.group(2).strip().endswith('*') and object_pointer(m.group(2).strip()) and n['k'] != 'CXXConstructExpr':
+                    res['ptrorder'].append((f, n, 'comparator object %s' % n.get('t')))
     return res
+
+
+# default-comparator forms: number of call arguments (the exported call node has one more child, the callee)
+STD_ORDER_ALGOS = {'std::sort': 2, 'std::stable_sort': 2, 'std::set_difference': 5, 'std::set_intersection': 5, 'std::set_union': 5,
+                   'std::set_symmetric_difference': 5, 'std::includes': 4, 'std::merge': 5, 'std::inplace_merge': 3, 'std::lower_bound': 3,
+                   'std::upper_bound': 3, 'std::equal_range': 3, 'std::binary_search': 3, 'std::min_element': 2, 'std::max_element': 2,
+                   'std::nth_element': 3, 'std::partial_sort': 3, 'std::is_sorted': 2, 'std::lexicographical_compare': 4}
+
+
+def object_pointer(t):
+    """pointer to an object whose address carries no meaning (not a character/byte buffer position)"""
+    t = (t or '').replace('const ', '').strip()
+    if not t.endswith('*') or t.endswith('**'):
+        return False
+    pointee = t[:-1].strip()
+    return pointee not in ('char', 'unsigned char', 'signed char', 'XMLCh', 'char16_t', 'wchar_t', 'void', 'uint8_t', 'jsmntok_t', 'int', 'unsigned int', 'short', 'unsigned short', 'long', 'unsigned long')
+
+
+def pointer_range(at):
+    """does an iterator type range over pointer elements?"""
+    return bool(re.search(r'\*\s*\*|<[^<>]*\*\s*>|<[^<>]*\*\s*,', at or ''))
 
 
 def enclosing_compound_loop(f, n):
@@ -168,7 +214,7 @@ def enclosing_compound_loop(f, n):
 
 def run(rep, tier):
     rep.rule('R20.1', 'no pointer value reaches transformer output: no operator<<(const void*) and no pointer->integer cast in the transformer closure')
-    rep.rule('R20.2', 'no loop with an order-dependent effect iterates a container ordered or hashed by address in the transformer closure')
+    rep.rule('R20.2', 'no loop with an order-dependent effect iterates a container ordered or hashed by address, and no ordering decision is taken on addresses (pointer <, std::less<T*>, sort/merge/set algorithms with the default comparator on pointer ranges), in the transformer closure and in the micro-step engines')
     rep.rule('R20.3', 'no other nondeterminism source (uuid, clock, rand, pid, env, temp names) in the transformer closure outside the enumerated sites')
     rep.rule('R20.4', 'cache files cannot influence results: every consumer of the interpreter cache is behind the md5 guard that clears a foreign cache')
     rep.rule('R20.0', 'positive control: each of the constructs above is matched in tools/controls/c20_control.cpp')
@@ -200,18 +246,17 @@ def run(rep, tier):
             pred[t] = m
             work.append(t)
     closure = [fb.funcs[m] for m in pred]
-    if tier == 'thorough':
-        # extension: the micro-step engines themselves (trace determinism, address-ordered iteration only)
-        engines = [f for f in fb.funcs.values() if f.file.startswith(('src/uscxml/interpreter/LargeMicroStep', 'src/uscxml/interpreter/FastMicroStep'))]
-    else:
-        engines = []
+    # the micro-step engines themselves (trace determinism: address-ordered iteration and ordering decisions on addresses)
+    engines = [f for f in fb.funcs.values() if f.file.startswith(('src/uscxml/interpreter/LargeMicroStep', 'src/uscxml/interpreter/FastMicroStep'))]
+    if len(engines) < 40:
+        raise AnalysisBroken('only %d engine functions found' % len(engines))
     rep.covered(tus=len(tus), extracted=fb.extracted, functions_total=len(fb.funcs), transformer_roots=len(roots),
                 closure_functions=len(closure), engine_functions=len(engines))
 
     # ---- positive control
     ctl = facts.load_extra(os.path.join(facts.VERIF, 'tools/controls/c20_control.cpp'))
     cres = scan(ctl, list(ctl.funcs.values()), rep, control=True)
-    ok = (len(cres['ptrstream']) >= 1 and len(cres['ptr2int']) >= 1 and len(cres['iter']) >= 2 and len(cres['nondet']) >= 1 and len(cres['ptrorder']) >= 3
+    ok = (len(cres['ptrstream']) >= 1 and len(cres['ptr2int']) >= 1 and len(cres['iter']) >= 2 and len(cres['nondet']) >= 1 and len(cres['ptrorder']) >= 6
           and all(order_sensitive(ctl, l) for (_, _, _, l) in cres['iter'] if l))
     if not ok:
         raise AnalysisBroken('positive control not matched: %s' % {k: len(v) if isinstance(v, list) else v for k, v in cres.items()})
@@ -278,7 +323,13 @@ def run(rep, tier):
             origin = range_origin(f, n) or member_origin(base)
             eff = order_sensitive(fb, loop) if loop else 'loop not identified'
             rep.check(not eff, 'R20.2', 'engine|' + origin, locstr(n), 'engine iterates address-ordered container %s (%s)' % (origin, eff))
-        rep.ok('R20.2', 'engines', '%d engine functions scanned, %d address-ordered iterations' % (len(engines), len(eres['iter'])))
+        for f, n, t in eres['ptrorder']:
+            key = (f.q, n.get('callee', {}).get('q', '').split('<')[0])
+            if key in ADDRESS_ORDER_OK:
+                rep.ok('R20.2', 'engine|%s|%s' % key, 'exempt: ' + ADDRESS_ORDER_OK[key])
+                continue
+            rep.fail('R20.2', 'engine|%s|%s' % (f.q, n.get('callee', {}).get('q', n.get('op', ''))), locstr(n), 'the engine orders by address (%s): %s -- the trace depends on the memory layout' % (t, fb.text(n)[:80]))
+        rep.ok('R20.2', 'engines', '%d engine functions scanned, %d address-ordered iterations, %d ordering decisions on addresses' % (len(engines), len(eres['iter']), len(eres['ptrorder'])))
 
     # ---- R20.3
     for f, n, q in res['nondet']:
